@@ -167,7 +167,7 @@ func walkReplay(e *env) error {
 			}
 			close(next)
 			var wg sync.WaitGroup
-			for w := 0; w < 12; w++ {
+			for w := 0; w < nWorkers(); w++ {
 				wg.Add(1)
 				go func(w int) {
 					defer wg.Done()
@@ -211,7 +211,7 @@ func walkReplay(e *env) error {
 			}
 			close(next)
 			var wg sync.WaitGroup
-			for w := 0; w < 12; w++ {
+			for w := 0; w < nWorkers(); w++ {
 				wg.Add(1)
 				go func(w int) {
 					defer wg.Done()
